@@ -99,6 +99,7 @@ def explore_all(run, programs, bounds, random_runs=0, opcode_random=False, opcod
         for idx, out, err in pool.imap_unordered(fn, todo, chunksize=1):
             if err == 'STALL':
                 again.append(idx)
+                run.cov.setdefault('stalled_subtrees', []).append([tags_of[idx][1], attempt])
                 continue
             if err:
                 raise pipeline.MachineryFailure(err)
